@@ -12,7 +12,7 @@ set_option linter.unusedVariables false
 set_option linter.unusedSimpArgs false
 set_option maxHeartbeats 1000000
 open Lex PM Ast TP TP2 TS TQ
-namespace TD
+namespace TDM
 variable {d : Gen.D} {ch : Expr → Bool}
 
 /-! ### INSERT -/
@@ -308,4 +308,4 @@ theorem setQW_stripW (q : Query) (ws : List WithTable) (h : withsOf q = some ws)
     simp only [withsOf] at h; subst h
     rfl
 
-end TD
+end TDM
